@@ -107,7 +107,7 @@ pub fn decode_history(data: &[u8]) -> Option<History> {
         }
     }
     let mut ops = vec![];
-    while !u.is_empty() && ops.len() < 400 {
+    while !u.is_empty() && ops.len() < 90 {
         match op(&mut u) {
             Ok(o) => ops.push(o),
             Err(_) => break,
@@ -182,7 +182,7 @@ pub fn decode_seq(data: &[u8]) -> Option<SeqCase> {
         _ => Pool::Sparse { total: 2999, picks: vec![0, 65535, 1400, 1399, 4200] },
     };
     let mut ops = vec![];
-    while !u.is_empty() && ops.len() < 400 {
+    while !u.is_empty() && ops.len() < 150 {
         match sop(&mut u) {
             Ok(o) => ops.push(o),
             Err(_) => break,
